@@ -372,6 +372,7 @@ pub fn run(tier: Tier) {
             None
         }
     });
+    crate::e5::run_part(&mut ctx, "decode");
     ctx.sample(json!({"variant":512,"seed":"LE64(0)||0^24","sizes":[1281,897,666]}));
     ctx.assume("the per-field loops of the key codecs are data-independent, so varying one field at a time covers every representable key up to which other fields surround it");
     ctx.assume("other seeds than the window: bounded; the window contains the seeds on which key generation was found to leave the encodable range");
@@ -379,6 +380,9 @@ pub fn run(tier: Tier) {
 }
 
 pub fn replay(case: &Value) -> Result<Option<String>, String> {
+    if case.get("kind").and_then(|k| k.as_str()) == Some("e5") {
+        return crate::e5::replay(case);
+    }
     if case.get("kind").and_then(|k| k.as_str()) == Some("history") {
         return crate::history::replay(case);
     }
